@@ -249,39 +249,40 @@ func (w *World) partialCompare(exp *Expect) {
 				}
 			}
 			// 3. the canonical proof of everything remembered, and of each leaf alone
+			pprops := append(append([]string{}, props...), "C02") // provability of what it remembers is also C02
 			if len(exp.Cached) > 0 {
 				hs := w.leafHashes(exp.Cached)
 				g := w.mon.begin(in, "Prove")
 				pr, err := in.M.Prove(g.H("hashes", hs))
 				g.end()
 				if err != nil {
-					w.fail(props, in, "prove.error", "cannot prove its remembered leaves: "+err.Error(), nil, nil)
+					w.fail(pprops, in, "prove.error", "cannot prove its remembered leaves: "+err.Error(), nil, nil)
 				} else {
 					w.mon.retainProof(in, "Prove result", &pr)
 					if want := w.encTargets(exp.Pf.T, R); !eqU64s(pr.Targets, want) {
-						w.fail(props, in, "prove.targets", "Prove(cached).Targets", want, pr.Targets)
+						w.fail(pprops, in, "prove.targets", "Prove(cached).Targets", want, pr.Targets)
 					}
 					if gp := w.sy.Ts(pr.Proof); !eqStrs(gp, exp.Pf.P) {
-						w.fail(props, in, "prove.proof", "Prove(cached).Proof", exp.Pf.P, gp)
+						w.fail(pprops, in, "prove.proof", "Prove(cached).Proof", exp.Pf.P, gp)
 					}
 				}
 				stump := utreexo.Stump{Roots: w.sy.Hs(exp.Roots), NumLeaves: exp.N}
 				for i, s := range exp.Cached {
 					one, err := in.M.Prove(hs[i : i+1])
 					if err != nil {
-						w.fail(props, in, "prove.error", fmt.Sprintf("cannot prove remembered leaf L%d alone: %v", s, err), nil, nil)
+						w.fail(pprops, in, "prove.error", fmt.Sprintf("cannot prove remembered leaf L%d alone: %v", s, err), nil, nil)
 						continue
 					}
 					if want := enc(cachedPos[leafTerm(s)], R); len(one.Targets) != 1 || one.Targets[0] != want {
-						w.fail(props, in, "prove.targets", fmt.Sprintf("Prove(L%d).Targets", s), want, one.Targets)
+						w.fail(pprops, in, "prove.targets", fmt.Sprintf("Prove(L%d).Targets", s), want, one.Targets)
 					}
 					for _, h := range one.Proof {
 						if t := w.sy.T(h); t[0] == '?' || t == "0" {
-							w.fail(props, in, "prove.proof", fmt.Sprintf("Prove(L%d) contains a hash that is no node of the forest", s), nil, t)
+							w.fail(pprops, in, "prove.proof", fmt.Sprintf("Prove(L%d) contains a hash that is no node of the forest", s), nil, t)
 						}
 					}
 					if _, err := utreexo.Verify(stump, hs[i:i+1], one); err != nil {
-						w.fail(props, in, "prove.verify", fmt.Sprintf("proof of remembered leaf L%d does not verify: %v", s, err), nil, nil)
+						w.fail(pprops, in, "prove.verify", fmt.Sprintf("proof of remembered leaf L%d does not verify: %v", s, err), nil, nil)
 					}
 				}
 			}
